@@ -241,10 +241,18 @@ Example parse_integer_runs_neg :
   run 60 E_ex NUMPARSE "parse_integer" [VB false] (init_st [49; 50; 51; 44]%N)
   = Ok (VPN (PI64 (-123)), mkSt [44%N] 3 true Gen.Tables.DEPTH0).
 Proof. vm_compute. reflexivity. Qed.
+(* floats are compared through their IEEE bit patterns (a [b64] carries a proof term) : 12.5e-7 = 0x3EB4F8B588E368F1 *)
+Definition f64_bits (r : res (val * st)) : res (N * st) :=
+  match r with
+  | Ok (VPN (PF64 f), s) | Ok (VF f, s) => Ok (bits_of_b64 f, s)
+  | Ok _ => Panic | Err c i => Err c i | OutOfFuel => OutOfFuel | Panic => Panic
+  end.
 Example parse_integer_runs_float :
-  run 60 E_ex NUMPARSE "parse_integer" [VB true] (init_st [49; 50; 46; 53; 101; 45; 55; 44]%N)
-  = liftP (Num.parse_integer E_ex true (init_st [49; 50; 46; 53; 101; 45; 55; 44]%N)).
-Proof. vm_compute. reflexivity. Qed.
+  f64_bits (run 60 E_ex NUMPARSE "parse_integer" [VB true] (init_st [49; 50; 46; 53; 101; 45; 55; 44]%N))
+  = Ok (4518509784728824049%N, mkSt [44%N] 7 true Gen.Tables.DEPTH0) /\
+  f64_bits (liftP (Num.parse_integer E_ex true (init_st [49; 50; 46; 53; 101; 45; 55; 44]%N)))
+  = Ok (4518509784728824049%N, mkSt [44%N] 7 true Gen.Tables.DEPTH0).
+Proof. split; vm_compute; reflexivity. Qed.
 Example parse_integer_exp_overflow :
   run 60 E_ex NUMPARSE "parse_integer" [VB true] (init_st [49; 101; 57; 57; 57; 57; 57; 57; 57; 57; 57; 57; 57]%N)
   = Err NumberOutOfRange 12.
